@@ -749,7 +749,58 @@ def extract_locks(out: Out, srcs):
     out.report["locks"] = {"sites": r["sites"], "kinds": r["kinds"]}
 
 
-EXTRACTORS = [extract_bytes, extract_tables, extract_keepalive, extract_reader, extract_backoff, extract_locks]
+def extract_threads(out: Out, srcs):
+    """C07: facts the concurrency models (Paho.Model.Threads) are instantiated with"""
+    F = "Threads"
+    import locks as L
+    lid = {"_in_callback_mutex": "inCallback", "_callback_mutex": "callback", "_msgtime_mutex": "msgtime",
+           "_out_message_mutex": "outMessage", "_in_message_mutex": "inMessage", "_reconnect_delay_mutex": "reconnectDelay",
+           "_mid_generate_mutex": "midGenerate", "<thread-join>": "threadJoin"}
+    path = os.path.join(PKG, "client.py")
+    names = ("midGenUnderLock", "midGenShapeOk", "wakeAfterAppend", "directWriteOnlyWithoutThread", "pushbackFront",
+             "dequeMutatorsOk", "loopOrderOk", "threadClearedAtExit")
+    docs = {
+        "midGenUnderLock": "client.py Client._mid_generate: the whole body is `with self._mid_generate_mutex:`",
+        "midGenShapeOk": "client.py Client._mid_generate: `self._last_mid += 1; if self._last_mid == W: self._last_mid = R; return self._last_mid`",
+        "wakeAfterAppend": "client.py Client._packet_queue: `self._out_packet.append(mpkt)` comes before the `_sockpairW.send()` wake-up byte",
+        "directWriteOnlyWithoutThread": "client.py Client._packet_queue: the only direct loop_write() is under `if self._thread is None and ...`, after the wake-up",
+        "pushbackFront": "client.py Client._packet_write: one popleft(); every re-queue is appendleft()",
+        "dequeMutatorsOk": "client.py: _out_packet is mutated only by _packet_queue.append, _packet_write.popleft/appendleft, reconnect.clear",
+        "loopOrderOk": "client.py Client._loop: wlist from want_write() and rlist with the wake pipe before select(); pipe readable => socket forced into the write set and pipe drained, before `if self._sock in socklist[1]: loop_write()`",
+        "threadClearedAtExit": "client.py Client._thread_main: self._thread = None only in the finally after loop_forever() returned",
+    }
+    try:
+        sh = L.thread_shapes(path)
+        for n in names:
+            out.add(F, n, "Bool", "true" if sh[n] else "false", docs[n])
+    except Exception as e:  # noqa: BLE001
+        for n in names:
+            out.missing(F, n, f"{type(e).__name__}: {e}")
+    try:
+        edges = L.lock_edges(path)
+        ranks = L.lock_ranks(edges)
+        out.add(F, "lockEdges", "List (LockId × LockId)", "[" + ", ".join(f"(.{lid[h]}, .{lid[l]})" for (h, l) in sorted(edges)) + "]",
+                "client.py: (held, acquired) for every blocking acquisition reachable from the public entry points "
+                "(lexical `with` nesting + call graph); (threadJoin, l) for every lock the network thread can take")
+        if ranks is None:
+            ranks = {k: 0 for k in lid}
+        out.add(F, "lockRank", "List (LockId × Nat)", "[" + ", ".join(f"(.{lid[k]}, {ranks[k]})" for k in lid) + "]",
+                "a layering of lockEdges computed by the extractor (all 0 if the relation is cyclic); CHECKED in Lean, not trusted")
+        out.report["lock_edges"] = {f"{h}->{l}": ms for (h, l), ms in edges.items()}
+    except Exception as e:  # noqa: BLE001
+        out.missing(F, "lockEdges", f"{type(e).__name__}: {e}")
+        out.missing(F, "lockRank", f"{type(e).__name__}: {e}")
+    try:
+        acc = L.shared_accesses(path)
+        rows = [f"({json.dumps(m)}, {json.dumps(a)}, {'true' if ln else 'false'}, {'true' if g else 'false'})" for (m, _line, a, ln, g) in acc]
+        out.add(F, "sharedAccesses", "List (String × String × Bool × Bool)", "[" + ",\n  ".join(rows) + "]",
+                "client.py: every access to _out_messages/_inflight_messages/_in_messages/_last_mid outside __init__: "
+                "(method, attribute, is it only `len(...)`, is the protecting mutex held lexically or in every calling context)")
+    except Exception as e:  # noqa: BLE001
+        out.missing(F, "sharedAccesses", f"{type(e).__name__}: {e}")
+
+
+EXTRACTORS = [extract_bytes, extract_tables, extract_keepalive, extract_reader, extract_backoff, extract_locks, extract_threads]
 
 
 def register(fn):
